@@ -12,7 +12,7 @@
                  training_config.yaml and the chunk config.yaml are written before any masking; the key is
                  blanked only inside `if use_wandb:`                     (must violate NoKeyOnDisk)
 
-   cfg = [model, fw, wandb, ckpt, structured]; file classes are strings. *)
+   cfg = [model, fw, wandb, ckpt, structured, lowmem]; file classes are strings. *)
 EXTENDS Naturals, Sequences, FiniteSets, TLC
 
 Classes == {"initial_config", "training_config", "chunk_config", "chunk_npz", "ckpt_best", "ckpt_last",
@@ -24,6 +24,9 @@ VARIABLES cfg, ordering, pc, cfgKey, disk, keyed, crashed
 vars == <<cfg, ordering, pc, cfgKey, disk, keyed, crashed>>
 
 Np(c) == c.fw = "torch_dataset_np_chunks"
+\* in-memory runs fall back to npz chunks (./train_chunks, ./val_chunks) when the cache does not fit into memory
+\* (check_memory > psutil.virtual_memory().available): chunks are written and must be deleted, no chunk config
+Chunked(c) == Np(c) \/ c.lowmem
 
 \* a step is <<name, class written or "", effect on the key>>
 Program(c, o) ==
@@ -37,14 +40,14 @@ Program(c, o) ==
    \o opt(c.wandb /\ o = "as_coded", <<"MaskKey", "">>)
    \o opt(c.wandb, <<"WandbConfigUpdate", "wandb_files">>)
    \o <<<<"SaveTraining", "training_config">>>>
-   \o opt(Np(c), <<"WriteChunks", "chunk_npz">>)
+   \o opt(Chunked(c), <<"WriteChunks", "chunk_npz">>)
    \o opt(c.ckpt, <<"LogHparams", "hparams_yaml">>)
    \o opt(c.ckpt, <<"LogRow", "metrics_csv">>)
    \o opt(c.ckpt, <<"CheckpointBest", "ckpt_best">>)
    \o opt(c.ckpt, <<"CheckpointLast", "ckpt_last">>)
    \o opt(c.wandb, <<"WandbFinish", "wandb_files">>)
    \o <<<<"SaveTraining", "training_config">>>>
-   \o opt(Np(c), <<"DeleteChunks", "chunk_npz">>)
+   \o opt(Chunked(c), <<"DeleteChunks", "chunk_npz">>)
 
 Prog == Program(cfg, ordering)
 
